@@ -7,21 +7,27 @@ from decaylib import F, Gen, U53, ancestors_sum, is_finite, within
 from oracle import DatasetView, LeanOracle, amaku_solution, eval_adaptive
 
 NEEDS_DATASET = True
-TARGETS = ["RdVerif.Props.C01", "RdVerif.Props.C04", "RdVerif.Props.C01Oracle", "RdVerif.Props.C04Error", "RdVerif.Props.C01Set"]
-THEOREMS = ["RdVerif.C01.C01_exact", "RdVerif.C01.C01_closed_form", "RdVerif.C01.C01_stable", "RdVerif.C01.C01_oracle_factor", "RdVerif.C01.C01_oracle_sound", "RdVerif.C01.C01_oracle_cached", "RdVerif.C01.C01_ln2_certified", "RdVerif.C01.C01_nuclide_set", "RdVerif.C04.float_data_contribution", "RdVerif.C04.exact_inverses", "RdVerif.C04.exact_diagonalises", "RdVerif.C04.pattern_is_ancestors", "RdVerif.C04.float_aggregate_bound"]
+TARGETS = ["RdVerif.Props.C01", "RdVerif.Props.C04", "RdVerif.Props.C01Oracle", "RdVerif.Props.C04Error", "RdVerif.Props.C01Set",
+           "RdVerif.Props.C01Error", "RdVerif.Props.AllDatasets"]
+THEOREMS = ["RdVerif.C01.C01_exact", "RdVerif.C01.C01_closed_form", "RdVerif.C01.C01_stable", "RdVerif.C01.C01_oracle_factor", "RdVerif.C01.C01_oracle_sound", "RdVerif.C01.C01_oracle_cached", "RdVerif.C01.C01_ln2_certified", "RdVerif.C01.C01_nuclide_set", "RdVerif.C01.C01_forward_error", "RdVerif.C01.C01_forward_error_ancestors",
+            "RdVerif.C01.C01_fp_exp", "RdVerif.C01.C01_fp_product", "RdVerif.AllDatasets.exact_solution", "RdVerif.AllDatasets.nuclide_set",
+            "RdVerif.AllDatasets.oracle_sound", "RdVerif.AllDatasets.stable", "RdVerif.AllDatasets.forward_error",
+            "RdVerif.AllDatasets.shipped_is_instance", "RdVerif.C04.float_data_contribution", "RdVerif.C04.exact_inverses", "RdVerif.C04.exact_diagonalises", "RdVerif.C04.pattern_is_ancestors", "RdVerif.C04.float_aggregate_bound"]
 PARTIAL = {
-    "C01_error_bound_partial": "the rounding part of the 1e-11 forward-error bound of the double-precision evaluation is not a Lean "
-                               "theorem: it is checked for every generated input against the oracle, which is PROVED to enclose the "
-                               "exact solution (C01_oracle_sound); the data part of the bound IS a theorem (float_data_contribution: "
-                               "<= 5e-12 of the initial atoms, all t >= 0, all N(0) >= 0)",
-    "C01_nuclide_set (synthetic datasets)": "for the shipped dataset 'index set written out = inputs and their closure under the "
-                               "progeny lists' is a theorem (C01_nuclide_set); that the real code writes out that index set is "
-                               "compared per input (and for every single-nuclide inventory) with the model's decayIndices and an "
-                               "independent graph closure; sub-datasets built through the public constructors are compared per input",
+    "C01_forward_error (floating-point model)": "the 1e-11 bound IS a theorem for the shipped dataset (C01_forward_error_ancestors: 5e-12 from the "
+                               "stored doubles + 4e-12 from rounding), under the standard model of floating-point arithmetic stated "
+                               "in its hypotheses (each operation relative error <= 2^-53, exp <= 2^-52; C01_fp_exp, C01_fp_product "
+                               "derive the hypotheses from it). That NumPy/SciPy satisfy the model is assumed; every generated input "
+                               "is compared with the oracle, which is PROVED to enclose the exact solution (C01_oracle_sound)",
+    "synthetic datasets": "exactness, nuclide set and oracle soundness are theorems for every dataset accepted by the executable checker "
+                               "wellFormedB (AllDatasets.*); the driver evaluates wellFormedB on each synthetic dataset as the library "
+                               "loaded it (compiled evaluation); the float tolerance on a synthetic dataset is the bound of "
+                               "AllDatasets.forward_error evaluated by the driver (errorBoundQ at the smallest tolerances passing "
+                               "errorCheckedB); compiled evaluation, not the kernel",
 }
 ASSUMPTIONS = [
     "NumPy/SciPy perform IEEE-754 double arithmetic (np.exp within 1 ulp; sparse products in some order)",
-    "synthetic datasets are not generated in this round: the check covers the shipped dataset",
+    "synthetic datasets: descendant-closed parts of the shipped graph with new half-lives and branching fractions",
 ]
 TOL = Fraction(1, 10**11)
 
